@@ -114,14 +114,18 @@ type Pool struct {
 	New func() any
 }
 
-// SoloGets counts pool requests made outside simulations (the reference executions run on one
-// goroutine; the harness reads and resets it between calls).
-var SoloGets int
+// SoloGets counts pool requests made outside simulations and in simulated reference executions
+// (the harness reads and resets it between calls). Atomic and hidden from the race detector: code
+// under test may start goroutines of its own.
+var soloGets atomic.Int64
+
+func SoloGets() int  { return int(soloGets.Load()) }
+func ResetSoloGets() { soloGets.Store(0) }
 
 func (p *Pool) Get() any {
 	obj, fresh, simulated := simrt.PoolGet(unsafe.Pointer(p))
-	if !simulated {
-		SoloGets++
+	if !simulated || simrt.CountingGets() {
+		simrt.Quiet(func() { soloGets.Add(1) })
 	}
 	if !simulated || fresh {
 		if p.New != nil {
